@@ -1,11 +1,72 @@
 /-
-C12 — invariants of the startup transition system (`Pandora.Model.C12`).  Core Lean only.
+C12 — invariants of the startup transition system (`Pandora.Model.C12`), its refinement to the sequential program
+`startSeq` (= the regenerated `startInstances`, Bridge/C12Startup), and the exits of `instRun`.  Core Lean only.
 -/
 import Pandora.Model.C12
 import Pandora.Proofs.C04
 
 namespace Pandora.Proofs.C12
-open Pandora.Model.C04 Pandora.Model.C12 Pandora.Proofs.C04
+open Pandora.Model.C04 Pandora.Model.C12 Pandora.Proofs.C04 Pandora.Go.C12
+
+/-! ### what one `Wait` call can answer -/
+
+/-- every path of `Wait`, with what it needs of the environment -/
+theorem waitV_spec (v : Variant) (w : Waiter) (e : Env) :
+    (e.ctxDone = true ∧ (waitV v w e).path = .ctxDone ∧ (waitV v w e).ok = false) ∨
+    (e.ctxDone = false ∧ e.tok = none ∧ (waitV v w e).path = .finished ∧ (waitV v w e).ok = false) ∨
+    (e.ctxDone = false ∧ ∃ next, e.tok = some next ∧
+      ((((waitV v w e).path = .cachedNow ∨ (waitV v w e).path = .freshNow) ∧ (waitV v w e).ok = true) ∨
+       ((waitV v w e).path = .timer ∧ (waitV v w e).ok = true ∧ e.timerWins = true) ∨
+       ((waitV v w e).path = .timerCancel ∧ (waitV v w e).ok = false ∧ e.timerWins = false))) := by
+  unfold waitV
+  by_cases hc : e.ctxDone = true
+  · left; simp [hc]
+  · right
+    have hc' : e.ctxDone = false := by simpa using hc
+    cases htok : e.tok with
+    | none => left; simp [hc']
+    | some next =>
+      right
+      refine ⟨hc', next, rfl, ?_⟩
+      simp only [hc', Bool.false_eq_true, if_false]
+      by_cases h1 : Pandora.Go.C04.timeSub next w.lastNow ≤ 0
+      · left; cases v <;> simp [h1]
+      · by_cases h2 : Pandora.Go.C04.timeSub next e.now ≤ 0
+        · left; simp [h1, h2]
+        · right
+          by_cases h3 : e.timerWins = true
+          · left; simp [h1, h2, h3]
+          · right; simp [h1, h2, h3]
+
+/-- a call that sleeps and is woken by `ctx.Done()` instead of the timer: same waiter state, answer false -/
+theorem waitV_timer_cancel (v : Variant) (w : Waiter) (e : Env) (h : (waitV v w e).path = .timer) :
+    (waitV v w { e with timerWins := false }).path = .timerCancel ∧
+    (waitV v w { e with timerWins := false }).ok = false := by
+  unfold waitV at h ⊢
+  by_cases hc : e.ctxDone = true
+  · simp [hc] at h
+  · cases htok : e.tok with
+    | none => simp [hc, htok] at h
+    | some next =>
+      simp only [hc, htok] at h ⊢
+      by_cases h1 : Pandora.Go.C04.timeSub next w.lastNow ≤ 0
+      · cases v <;> simp [h1] at h
+      · by_cases h2 : Pandora.Go.C04.timeSub next e.now ≤ 0
+        · simp [h1, h2] at h
+        · simp [h1, h2]
+
+theorem waitV_timer_ok (v : Variant) (w : Waiter) (e : Env) (h : (waitV v w e).path = .timer) :
+    (waitV v w e).ok = true ∧ ∃ next, e.tok = some next := by
+  rcases waitV_spec v w e with ⟨_, hp, _⟩ | ⟨_, _, hp, _⟩ | ⟨_, next, htok, hp⟩
+  · rw [hp] at h; cases h
+  · rw [hp] at h; cases h
+  · rcases hp with ⟨hp | hp, _⟩ | ⟨_, hok, _⟩ | ⟨hp, _, _⟩
+    · rw [hp] at h; cases h
+    · rw [hp] at h; cases h
+    · exact ⟨hok, next, htok⟩
+    · rw [hp] at h; cases h
+
+/-! ### state invariant -/
 
 /-- one of the three events that cancel the start context has happened -/
 def cancelSeen (s : St) : Prop := s.sawOutOfAmmo = true ∨ s.sawRpsFinished = true ∨ s.sawRunCancelled = true
@@ -14,115 +75,442 @@ def cancelSeen (s : St) : Prop := s.sawOutOfAmmo = true ∨ s.sawRpsFinished = t
 def causeSeen (s : St) : Prop :=
   s.sawOutOfAmmo = true ∨ s.sawRpsFinished = true ∨ s.sawCreateFailed = true ∨ s.sawRunCancelled = true
 
+theorem cancelSeen.cause {s : St} (h : cancelSeen s) : causeSeen s := by
+  rcases h with a | a | a
+  · exact Or.inl a
+  · exact Or.inr (Or.inl a)
+  · exact Or.inr (Or.inr (Or.inr a))
+
+/-- constant answer of a `Wait` call, whatever context it is given -/
+def K (b : Bool) : Ctx → Bool := fun _ => b
+
 /-- state invariant of the startup loop for a profile whose tokens are `all` -/
-structure Inv (all : List Int) (s : St) : Prop where
+structure Inv (c : Cfg) (all : List Int) (s : St) : Prop where
   toks : s.toks = all.drop s.consumed
+  bound : s.consumed ≤ all.length
   started : s.started = s.created.length
   ids : s.created.map (·.id) = List.range s.created.length
-  consumed : s.consumed = s.started ∨ (s.phase = .done ∧ s.sawCreateFailed = true)
+  cons : s.consumed = s.started ∨ (s.phase = .done ∧ s.consumed = s.started + 1)
+  consStarting : s.phase = .starting → s.consumed = s.started
   ctx : s.startCtxDone = true → cancelSeen s
-  done : s.phase = .done → s.toks = [] ∨ causeSeen s
+  done : s.phase = .done → (s.toks = [] ∧ s.consumed = s.started) ∨ causeSeen s
+  pend : ∀ p, s.pending = some p →
+    s.phase = .starting ∧ p.env.tok = s.toks.head? ∧ (waitV c.v s.waiter p.env).path = .timer
+  runCtx : s.runCtxDone = true ↔ s.sawRunCancelled = true
+  ammo : s.sawOutOfAmmo = true → s.ammoOut = true
+  rps : s.sawRpsFinished = true ↔ s.sharedRpsDone = true
+  rpsShared : s.sharedRpsDone = true → c.perInstance = false ∧ anyInstance s = true
+  running : ∀ id ∈ s.running, ∃ cr ∈ s.created, cr.id = id ∧ cr.ok = true
+  failed : s.sawCreateFailed = false → ∀ cr ∈ s.created, cr.ok = true
+  firstOkS : s.phase = .starting → s.firstOk = true
+  retS : s.phase = .starting → s.ret = .none
+  log0 : s.phase = .starting → (s.waitLog = [] ↔ s.started = 0)
+  seq : startSeq s.firstOk (s.waitLog.map K) = ⟨s.acts, (s.started : Int), s.ret, s.phase == .done⟩
 
-theorem Inv.init (all : List Int) : Inv all (St.init all) := by
-  refine ⟨by simp [St.init], rfl, rfl, Or.inl rfl, ?_, ?_⟩ <;> simp [St.init]
+theorem Inv.init (c : Cfg) (all : List Int) : Inv c all (St.init all) := by
+  refine ⟨by simp [St.init], by simp [St.init], rfl, rfl, Or.inl rfl, fun _ => rfl, ?_, ?_, ?_, ?_, ?_, ?_, ?_, ?_,
+    ?_, ?_, ?_, ?_, ?_⟩ <;> simp [St.init, startSeq]
 
-/-- `Wait` returns false only because the context is done, the schedule is finished, or the timer lost the select -/
-theorem waitV_not_ok (v : Variant) (w : Waiter) (e : Env) (h : (waitV v w e).ok = false) :
-    e.ctxDone = true ∨ e.tok = none ∨ e.timerWins = false := by
-  unfold waitV at h
-  by_cases hc : e.ctxDone = true
-  · exact Or.inl hc
-  · cases htok : e.tok with
-    | none => exact Or.inr (Or.inl rfl)
-    | some next =>
-      right; right
-      simp only [hc, htok] at h
-      cases v <;> (simp only [] at h; repeat' split at h) <;> simp_all
+/-- what the invariant needs to know about the answer `r` of the `Wait` call that is being completed in state `s` -/
+structure ResOK (s : St) (r : Res) : Prop where
+  drewTok : drew r.path = true → s.toks ≠ []
+  okDrew : r.ok = true → drew r.path = true
+  notOk : r.ok = false → (drew r.path = false ∧ s.toks = []) ∨ s.startCtxDone = true
 
-theorem step_inv (v : Variant) (all : List Int) (s : St) (ev : Event) (h : Inv all s) : Inv all (step v s ev) := by
+theorem resOK_of_matches (v : Variant) (s : St) (env : Env) (hm : envMatches s env = true) :
+    ResOK s (waitV v s.waiter env) := by
+  simp only [envMatches, Bool.and_eq_true, beq_iff_eq] at hm
+  obtain ⟨⟨hctx, htok⟩, htw⟩ := hm
+  rcases waitV_spec v s.waiter env with ⟨hc, hp, hok⟩ | ⟨_, hn, hp, hok⟩ | ⟨_, next, hnext, hp⟩
+  · refine ⟨by simp [hp, drew], by simp [hok], fun _ => Or.inr (by rw [← hctx, hc])⟩
+  · have hnil : s.toks = [] := by
+      rw [htok] at hn
+      cases hs : s.toks with
+      | nil => rfl
+      | cons a b => simp [hs] at hn
+    refine ⟨by simp [hp, drew], by simp [hok], fun _ => Or.inl ⟨by simp [hp, drew], hnil⟩⟩
+  · have hne : s.toks ≠ [] := by
+      intro hnil
+      rw [htok, hnil] at hnext
+      simp at hnext
+    rcases hp with ⟨hp | hp, hok⟩ | ⟨hp, hok, _⟩ | ⟨_, _, hf⟩
+    · exact ⟨fun _ => hne, by simp [hp, drew], by simp [hok]⟩
+    · exact ⟨fun _ => hne, by simp [hp, drew], by simp [hok]⟩
+    · exact ⟨fun _ => hne, by simp [hp, drew], by simp [hok]⟩
+    · rw [htw] at hf; cases hf
+
+/-! ### `startSeq` one answer further -/
+
+theorem startSeqLoop_snoc (acts : List Act) (st : Int) (l : List (Ctx → Bool)) (x : Ctx → Bool) :
+    startSeqLoop acts st (l ++ [x]) =
+      if (startSeqLoop acts st l).returned then startSeqLoop acts st l
+      else if x .start then
+        ⟨(startSeqLoop acts st l).acts ++ [.goRunNew .run (startSeqLoop acts st l).started],
+          (startSeqLoop acts st l).started + 1, .none, false⟩
+      else ⟨(startSeqLoop acts st l).acts, (startSeqLoop acts st l).started, .ofCtx .start, true⟩ := by
+  induction l generalizing acts st with
+  | nil =>
+    simp only [List.nil_append, startSeqLoop]
+    by_cases hx : x .start = true <;> simp [hx]
+  | cons w ws ih =>
+    simp only [List.cons_append, startSeqLoop]
+    by_cases hw : w .start = true
+    · simp only [hw, if_true]; exact ih _ _
+    · simp [hw]
+
+theorem startSeq_snoc (f : Bool) (l : List (Ctx → Bool)) (x : Ctx → Bool) (hl : l ≠ []) :
+    startSeq f (l ++ [x]) =
+      if (startSeq f l).returned then startSeq f l
+      else if x .start then
+        ⟨(startSeq f l).acts ++ [.goRunNew .run (startSeq f l).started], (startSeq f l).started + 1, .none, false⟩
+      else ⟨(startSeq f l).acts, (startSeq f l).started, .ofCtx .start, true⟩ := by
+  cases l with
+  | nil => exact absurd rfl hl
+  | cons w ws =>
+    simp only [List.cons_append, startSeq]
+    by_cases hw : w .start = true
+    · by_cases hf : f = true
+      · simp only [hw, hf, Bool.not_true, Bool.false_eq_true, if_false]
+        exact startSeqLoop_snoc _ _ ws x
+      · simp [hw, hf]
+    · simp [hw]
+
+/-! ### completing a `Wait` call preserves the invariant -/
+
+theorem seq_nil {c : Cfg} {all : List Int} {s : St} (h : Inv c all s) (hl0 : s.waitLog = []) : s.acts = [] := by
+  have := h.seq
+  rw [hl0] at this
+  simp only [List.map_nil, startSeq] at this
+  exact (congrArg StartRes.acts this).symm
+
+theorem complete_inv (c : Cfg) (all : List Int) (s : St) (r : Res) (p : Pending) (h : Inv c all s)
+    (hph : s.phase = .starting) (hr : ResOK s r) : Inv c all (complete s r p) := by
+  have hcons : s.consumed = s.started := h.consStarting hph
+  have hfo : s.firstOk = true := h.firstOkS hph
+  have hrt : s.ret = .none := h.retS hph
+  have hseq0 := h.seq
+  -- the tokens after this call
+  have htoks' : drew r.path = true → s.toks.tail = all.drop (s.consumed + 1) ∧ s.consumed + 1 ≤ all.length := by
+    intro hd
+    have hne := hr.drewTok hd
+    refine ⟨by rw [h.toks, List.tail_drop], ?_⟩
+    have : all.drop s.consumed ≠ [] := by rw [← h.toks]; exact hne
+    rw [Ne, List.drop_eq_nil_iff] at this
+    omega
+  -- the sequential program one answer further, when the call answers false
+  have hseqFalse :
+      startSeq s.firstOk ((s.waitLog ++ [false]).map K) = ⟨s.acts, (s.started : Int), .ofCtx .start, true⟩ := by
+    by_cases hl0 : s.waitLog = []
+    · have hs0 : s.started = 0 := (h.log0 hph).mp hl0
+      simp [hl0, seq_nil h hl0, hs0, startSeq, K]
+    · rw [List.map_append, List.map_cons, List.map_nil, startSeq_snoc _ _ _ (by simpa using hl0), hseq0]
+      simp [hph, K]
+  unfold complete
+  by_cases hok : r.ok = true
+  · -- the call answered true: a token was drawn
+    have hd : drew r.path = true := hr.okDrew hok
+    obtain ⟨htl, hb⟩ := htoks' hd
+    simp only [hd, if_true, hok, Bool.not_true, Bool.false_eq_true, if_false]
+    by_cases h0 : (s.started == 0) = true
+    · have hs0 : s.started = 0 := by simpa using h0
+      have hcl : s.created = [] := by
+        have := h.started; rw [hs0] at this
+        exact List.length_eq_zero_iff.mp this.symm
+      have hl0 : s.waitLog = [] := (h.log0 hph).mpr hs0
+      have hacts : s.acts = [] := seq_nil h hl0
+      by_cases hco : p.createOk = true
+      · simp only [h0, if_true, hco]
+        exact {
+          toks := by simpa using htl
+          bound := hb
+          started := by simp [hcl]
+          ids := by simp [hcl]
+          cons := Or.inl (by simp [hcons, hs0])
+          consStarting := fun _ => by simp [hcons, hs0]
+          ctx := h.ctx
+          done := by intro hdn; simp [hph] at hdn
+          pend := by intro q hq; simp at hq
+          runCtx := h.runCtx
+          ammo := h.ammo
+          rps := h.rps
+          rpsShared := by
+            intro hsh
+            exact ⟨(h.rpsShared hsh).1, by simp [anyInstance]⟩
+          running := by
+            intro id hid
+            simp only [List.mem_append, List.mem_singleton] at hid
+            rcases hid with hid | hid
+            · obtain ⟨cr, hcr, hi⟩ := h.running id hid
+              exact ⟨cr, by simp [hcr], hi⟩
+            · exact ⟨⟨0, p.env.ret + p.delay, true⟩, by simp, by simp [hid]⟩
+          failed := by
+            intro hf cr hcr
+            simp only [List.mem_append, List.mem_singleton] at hcr
+            rcases hcr with hcr | hcr
+            · exact h.failed hf cr hcr
+            · rw [hcr]
+          firstOkS := fun _ => hfo
+          retS := fun _ => hrt
+          log0 := by intro _; simp
+          seq := by
+            simp [hl0, hacts, startSeq, K, hfo, startSeqLoop, hph, hrt] }
+      · have hco' : p.createOk = false := by simpa using hco
+        simp only [h0, if_true, hco', Bool.false_eq_true, if_false]
+        exact {
+          toks := by simpa using htl
+          bound := hb
+          started := h.started
+          ids := h.ids
+          cons := Or.inr ⟨rfl, by simp [hcons]⟩
+          consStarting := by intro hx; cases hx
+          ctx := h.ctx
+          done := fun _ => Or.inr (Or.inr (Or.inr (Or.inl rfl)))
+          pend := by intro q hq; simp at hq
+          runCtx := h.runCtx
+          ammo := h.ammo
+          rps := h.rps
+          rpsShared := h.rpsShared
+          running := h.running
+          failed := by intro hx; cases hx
+          firstOkS := by intro hx; cases hx
+          retS := by intro hx; cases hx
+          log0 := by intro hx; cases hx
+          seq := by
+            simp [hl0, hacts, hs0, startSeq, K] }
+    · -- a later instance
+      have hsn : s.started ≠ 0 := by simpa using h0
+      have hlne : s.waitLog ≠ [] := fun hx => hsn ((h.log0 hph).mp hx)
+      simp only [h0, Bool.false_eq_true, if_false]
+      exact {
+        toks := by simpa using htl
+        bound := hb
+        started := by simpa using h.started
+        ids := by simp [List.range_succ, h.ids]; exact h.started
+        cons := Or.inl (by simp [hcons])
+        consStarting := fun _ => by simp [hcons]
+        ctx := h.ctx
+        done := by intro hdn; simp [hph] at hdn
+        pend := by intro q hq; simp at hq
+        runCtx := h.runCtx
+        ammo := h.ammo
+        rps := h.rps
+        rpsShared := by
+          intro hsh
+          obtain ⟨a, b⟩ := h.rpsShared hsh
+          refine ⟨a, ?_⟩
+          simp only [anyInstance, List.any_append, Bool.or_eq_true] at b ⊢
+          exact Or.inl b
+        running := by
+          intro id hid
+          by_cases hco : p.createOk = true
+          · simp only [hco, if_true, List.mem_append, List.mem_singleton] at hid
+            rcases hid with hid | hid
+            · obtain ⟨cr, hcr, hi⟩ := h.running id hid
+              exact ⟨cr, by simp [hcr], hi⟩
+            · exact ⟨⟨s.started, p.env.ret + p.delay, p.createOk⟩, by simp, by simp [hid, hco]⟩
+          · simp only [hco, Bool.false_eq_true, if_false] at hid
+            obtain ⟨cr, hcr, hi⟩ := h.running id hid
+            exact ⟨cr, by simp [hcr], hi⟩
+        failed := by
+          intro hf cr hcr
+          simp only [Bool.or_eq_false_iff, Bool.not_eq_false'] at hf
+          simp only [List.mem_append, List.mem_singleton] at hcr
+          rcases hcr with hcr | hcr
+          · exact h.failed hf.1 cr hcr
+          · rw [hcr]; exact hf.2
+        firstOkS := fun _ => hfo
+        log0 := by
+          intro _
+          constructor
+          · intro hx; simp at hx
+          · intro hx; simp at hx
+        retS := fun _ => hrt
+        seq := by
+          dsimp only
+          rw [List.map_append, List.map_cons, List.map_nil, startSeq_snoc _ _ _ (by simpa using hlne), hseq0]
+          simp [hph, K, hrt] }
+  · -- the call answered false: the loop is over
+    have hok' : r.ok = false := by simpa using hok
+    simp only [hok', Bool.not_false, if_true]
+    by_cases hd : drew r.path = true
+    · -- woken by the cancelled context after the token was drawn
+      obtain ⟨htl, hb⟩ := htoks' hd
+      have hcx : s.startCtxDone = true := by
+        rcases hr.notOk hok' with ⟨hnd, _⟩ | hx
+        · rw [hd] at hnd; cases hnd
+        · exact hx
+      simp only [hd, if_true]
+      exact {
+        toks := by simpa using htl
+        bound := hb
+        started := h.started
+        ids := h.ids
+        cons := Or.inr ⟨rfl, by simp [hcons]⟩
+        consStarting := by intro hx; cases hx
+        ctx := h.ctx
+        done := fun _ => Or.inr (h.ctx hcx).cause
+        pend := by intro q hq; simp at hq
+        runCtx := h.runCtx
+        ammo := h.ammo
+        rps := h.rps
+        rpsShared := h.rpsShared
+        running := h.running
+        failed := h.failed
+        firstOkS := by intro hx; cases hx
+        retS := by intro hx; cases hx
+        log0 := by intro hx; cases hx
+        seq := by simpa using hseqFalse }
+    · have hd' : drew r.path = false := by simpa using hd
+      simp only [hd', Bool.false_eq_true, if_false]
+      exact {
+        toks := h.toks
+        bound := h.bound
+        started := h.started
+        ids := h.ids
+        cons := Or.inl hcons
+        consStarting := fun _ => hcons
+        ctx := h.ctx
+        done := by
+          intro _
+          rcases hr.notOk hok' with ⟨_, hnil⟩ | hx
+          · exact Or.inl ⟨hnil, hcons⟩
+          · exact Or.inr (h.ctx hx).cause
+        pend := by intro q hq; simp at hq
+        runCtx := h.runCtx
+        ammo := h.ammo
+        rps := h.rps
+        rpsShared := h.rpsShared
+        running := h.running
+        failed := h.failed
+        firstOkS := by intro hx; cases hx
+        retS := by intro hx; cases hx
+        log0 := by intro hx; cases hx
+        seq := by simpa using hseqFalse }
+
+/-! ### every event preserves the invariant -/
+
+/-- fields untouched by an event that changes only flags -/
+theorem Inv.pendOf {c : Cfg} {all : List Int} {s : St} (h : Inv c all s) (p : Pending) (hp : s.pending = some p) :
+    ResOK s (waitV c.v s.waiter p.env) := by
+  obtain ⟨_, htok, hpath⟩ := h.pend p hp
+  obtain ⟨hok, next, hnext⟩ := waitV_timer_ok _ _ _ hpath
+  have hne : s.toks ≠ [] := by
+    intro hnil
+    rw [htok, hnil] at hnext
+    simp at hnext
+  exact ⟨fun _ => hne, fun _ => by simp [hpath, drew], by simp [hok]⟩
+
+theorem step_inv (c : Cfg) (all : List Int) (s : St) (ev : Event) (h : Inv c all s) : Inv c all (step c s ev) := by
   cases ev with
   | wait env createOk delay =>
-    show Inv all (stepWait v s env createOk delay)
+    show Inv c all (stepWait c s env createOk delay)
     unfold stepWait
-    by_cases hg : (s.phase != .starting || !envMatches s env) = true
-    · simpa [hg] using h
-    · simp only [hg]
+    by_cases hg : (s.phase != .starting || s.pending.isSome || !envMatches s env) = true
+    · rw [if_pos hg]; exact h
+    · rw [if_neg hg]
       have hph : s.phase = .starting := by
         cases hp : s.phase <;> simp_all
       have hm : envMatches s env = true := by
         cases hm : envMatches s env <;> simp_all
-      have hcons : s.consumed = s.started := by
-        rcases h.consumed with hc | ⟨hd, _⟩
-        · exact hc
-        · rw [hph] at hd; cases hd
-      simp only [envMatches, Bool.and_eq_true, beq_iff_eq] at hm
-      obtain ⟨⟨hctx, htok⟩, htw⟩ := hm
-      by_cases hk : (waitV v s.waiter env).ok = true
-      · simp only [hk]
+      by_cases ht : ((waitV c.v s.waiter env).path == .timer) = true
+      · simp only [ht, if_true]
+        have ht' : (waitV c.v s.waiter env).path = .timer := by simpa using ht
+        simp only [envMatches, Bool.and_eq_true, beq_iff_eq] at hm
+        exact {
+          toks := h.toks, bound := h.bound, started := h.started, ids := h.ids, cons := h.cons
+          consStarting := h.consStarting, ctx := h.ctx, done := h.done
+          pend := by
+            intro q hq
+            simp only [Option.some.injEq] at hq
+            subst hq
+            exact ⟨hph, hm.1.2, ht'⟩
+          runCtx := h.runCtx, ammo := h.ammo, rps := h.rps, rpsShared := h.rpsShared, running := h.running
+          failed := h.failed, firstOkS := h.firstOkS, retS := h.retS, log0 := h.log0, seq := h.seq }
+      · simp only [ht, Bool.false_eq_true, if_false]
+        exact complete_inv c all s _ _ h hph (resOK_of_matches c.v s env hm)
+  | timerFire =>
+    show Inv c all (stepFire c s)
+    unfold stepFire
+    cases hp : s.pending with
+    | none => exact h
+    | some p => exact complete_inv c all s _ p h (h.pend p hp).1 (h.pendOf p hp)
+  | wakeCancelled =>
+    show Inv c all (stepWake c s)
+    unfold stepWake
+    cases hp : s.pending with
+    | none => exact h
+    | some p =>
+      by_cases hcx : s.startCtxDone = true
+      · simp only [hcx, Bool.not_true, Bool.false_eq_true, if_false]
+        obtain ⟨hph, htok, hpath⟩ := h.pend p hp
+        obtain ⟨hpc, hokc⟩ := waitV_timer_cancel _ _ _ hpath
+        obtain ⟨_, next, hnext⟩ := waitV_timer_ok _ _ _ hpath
         have hne : s.toks ≠ [] := by
           intro hnil
-          cases v <;> simp [waitV, htok, hnil] at hk <;> (split at hk <;> simp at hk)
-        have htl : s.toks.tail = all.drop (s.consumed + 1) := by
-          rw [h.toks, List.tail_drop]
-        by_cases h0 : (s.started == 0) = true
-        · by_cases hco : createOk = true
-          · simp only [Bool.not_true, Bool.false_eq_true, if_false, h0, if_true, hco]
-            have hs0 : s.started = 0 := by simpa using h0
-            have hcl : s.created = [] := by
-              have := h.started; rw [hs0] at this
-              exact List.length_eq_zero_iff.mp this.symm
-            refine ⟨by simpa using htl, by simp [hcl], by simp [hcl], Or.inl (by simp [hcons, hs0]), ?_, ?_⟩
-            · intro hc; exact h.ctx hc
-            · intro hd; simp [hph] at hd
-          · simp only [Bool.not_true, Bool.false_eq_true, if_false, h0, if_true, hco]
-            refine ⟨by simpa using htl, h.started, h.ids, Or.inr ⟨rfl, rfl⟩, ?_, ?_⟩
-            · intro hc; exact h.ctx hc
-            · intro _; exact Or.inr (Or.inr (Or.inr (Or.inl rfl)))
-        · simp only [Bool.not_true, Bool.false_eq_true, if_false, h0]
-          refine ⟨by simpa using htl, by simpa using h.started, ?_, Or.inl (by simp [hcons]), ?_, ?_⟩
-          · simp [List.range_succ, h.ids]; exact h.started
-          · intro hc
-            rcases h.ctx hc with a | a | a
-            · exact Or.inl a
-            · exact Or.inr (Or.inl a)
-            · exact Or.inr (Or.inr a)
-          · intro hd; simp [hph] at hd
-      · have hk' : (waitV v s.waiter env).ok = false := by simpa using hk
-        simp only [hk', Bool.not_false, if_true]
-        refine ⟨h.toks, h.started, h.ids, Or.inl hcons, h.ctx, ?_⟩
-        intro _
-        rcases waitV_not_ok v s.waiter env hk' with hc | hn | ht
-        · rw [hctx] at hc
-          rcases h.ctx hc with a | a | a
-          · exact Or.inr (Or.inl a)
-          · exact Or.inr (Or.inr (Or.inl a))
-          · exact Or.inr (Or.inr (Or.inr (Or.inr a)))
-        · left
-          rw [htok] at hn
-          cases hs : s.toks with
-          | nil => rfl
-          | cons a b => simp [hs] at hn
-        · rw [htw] at ht; cases ht
+          rw [htok, hnil] at hnext
+          simp at hnext
+        exact complete_inv c all s _ p h hph ⟨fun _ => hne, by simp [hokc], fun _ => Or.inr hcx⟩
+      · simpa [hcx] using h
   | outOfAmmoResult =>
-    refine ⟨h.toks, h.started, h.ids, h.consumed, fun _ => Or.inl rfl, fun hd => ?_⟩
-    exact Or.inr (Or.inl rfl)
+    show Inv c all (if !s.ammoOut then s else _)
+    by_cases ha : s.ammoOut = true
+    · simp only [ha, Bool.not_true, Bool.false_eq_true, if_false]
+      exact {
+        toks := h.toks, bound := h.bound, started := h.started, ids := h.ids, cons := h.cons
+        consStarting := h.consStarting, ctx := fun _ => Or.inl rfl
+        done := by
+          intro hd
+          rcases h.done hd with a | a
+          · exact Or.inl a
+          · exact Or.inr (Or.inl rfl)
+        pend := h.pend, runCtx := h.runCtx, ammo := fun _ => rfl, rps := h.rps, rpsShared := h.rpsShared
+        running := h.running, failed := h.failed, firstOkS := h.firstOkS, retS := h.retS, log0 := h.log0, seq := h.seq }
+    · simpa [ha] using h
   | rpsFinished =>
-    refine ⟨h.toks, h.started, h.ids, h.consumed, fun _ => Or.inr (Or.inl rfl), fun hd => ?_⟩
-    exact Or.inr (Or.inr (Or.inl rfl))
+    show Inv c all (if c.perInstance || !anyInstance s then s else _)
+    by_cases hg : (c.perInstance || !anyInstance s) = true
+    · simpa [hg] using h
+    · simp only [hg, Bool.false_eq_true, if_false]
+      simp only [Bool.or_eq_true, Bool.not_eq_true', not_or, Bool.not_eq_true, Bool.not_eq_false] at hg
+      exact {
+        toks := h.toks, bound := h.bound, started := h.started, ids := h.ids, cons := h.cons
+        consStarting := h.consStarting, ctx := fun _ => Or.inr (Or.inl rfl)
+        done := by
+          intro hd
+          rcases h.done hd with a | a
+          · exact Or.inl a
+          · exact Or.inr (Or.inr (Or.inl rfl))
+        pend := h.pend, runCtx := h.runCtx, ammo := h.ammo, rps := by simp
+        rpsShared := fun _ => ⟨hg.1, hg.2⟩
+        running := h.running, failed := h.failed, firstOkS := h.firstOkS, retS := h.retS, log0 := h.log0, seq := h.seq }
   | runCancel =>
-    refine ⟨h.toks, h.started, h.ids, h.consumed, fun _ => Or.inr (Or.inr rfl), fun hd => ?_⟩
-    exact Or.inr (Or.inr (Or.inr (Or.inr rfl)))
+    exact {
+      toks := h.toks, bound := h.bound, started := h.started, ids := h.ids, cons := h.cons
+      consStarting := h.consStarting, ctx := fun _ => Or.inr (Or.inr rfl)
+      done := by
+        intro hd
+        rcases h.done hd with a | a
+        · exact Or.inl a
+        · exact Or.inr (Or.inr (Or.inr (Or.inr rfl)))
+      pend := h.pend, runCtx := by simp [step], ammo := h.ammo, rps := h.rps, rpsShared := h.rpsShared
+      running := h.running, failed := h.failed, firstOkS := h.firstOkS, retS := h.retS, log0 := h.log0, seq := h.seq }
   | instanceExit id reason =>
-    show Inv all (stepExit s id reason)
+    show Inv c all (stepExit c s id reason)
     unfold stepExit
     split
     · exact h
-    · exact ⟨h.toks, h.started, h.ids, h.consumed, h.ctx, h.done⟩
+    · exact {
+        toks := h.toks, bound := h.bound, started := h.started, ids := h.ids, cons := h.cons
+        consStarting := h.consStarting, ctx := h.ctx, done := h.done, pend := h.pend, runCtx := h.runCtx
+        ammo := fun hx => by simp [h.ammo hx]
+        rps := h.rps, rpsShared := h.rpsShared
+        running := fun i hi => h.running i (List.mem_of_mem_erase hi)
+        failed := h.failed, firstOkS := h.firstOkS, retS := h.retS, log0 := h.log0, seq := h.seq }
 
-theorem run_inv (v : Variant) (all : List Int) (s : St) (evs : List Event) (h : Inv all s) : Inv all (run v s evs) := by
+theorem run_inv (c : Cfg) (all : List Int) (s : St) (evs : List Event) (h : Inv c all s) : Inv c all (run c s evs) := by
   induction evs generalizing s with
   | nil => exact h
-  | cons ev rest ih => exact ih _ (step_inv v all s ev h)
+  | cons ev rest ih => exact ih _ (step_inv c all s ev h)
 
 /-! ### timing -/
 
@@ -140,122 +528,328 @@ def EventsClockOK (w : Waiter) (evs : List Event) : Prop :=
 instance (w : Waiter) (evs : List Event) : Decidable (EventsClockOK w evs) := by
   unfold EventsClockOK; exact inferInstance
 
+/-- the clock hypotheses for the events still to come, in a state that may hold a sleeping `Wait` call -/
+structure ClockInv (s : St) (rest : List Event) : Prop where
+  ok : ∀ e ∈ waitEnvs rest, EnvOK e
+  last : ∀ e ∈ waitEnvs rest, s.waiter.lastNow ≤ e.now
+  pw : (waitEnvs rest).Pairwise (fun a b => a.now ≤ b.now)
+  pend : ∀ p, s.pending = some p →
+    EnvOK p.env ∧ s.waiter.lastNow ≤ p.env.now ∧ ∀ e ∈ waitEnvs rest, p.env.now ≤ e.now
+
+theorem complete_waiter (s : St) (r : Res) (p : Pending) :
+    (complete s r p).waiter = r.w ∧ (complete s r p).pending = none := by
+  unfold complete
+  dsimp only
+  (repeat' split) <;> exact ⟨rfl, rfl⟩
+
 /-- every created instance was created at or after the release time of the token with its number -/
 def NotAhead (all : List Int) (s : St) : Prop :=
   ∀ c ∈ s.created, ∃ t, all[c.id]? = some t ∧ t ≤ c.instant
 
-theorem step_waiter (v : Variant) (s : St) (ev : Event) :
-    (step v s ev).waiter = s.waiter ∨ ∃ env ok d, ev = .wait env ok d ∧ (step v s ev).waiter = (waitV v s.waiter env).w := by
-  cases ev with
-  | wait env createOk delay =>
-    by_cases hg : (s.phase != .starting || !envMatches s env) = true
-    · left
-      show (stepWait v s env createOk delay).waiter = s.waiter
-      unfold stepWait; rw [if_pos hg]
-    · right
-      refine ⟨env, createOk, delay, rfl, ?_⟩
-      show (stepWait v s env createOk delay).waiter = _
-      unfold stepWait; rw [if_neg hg]
-      dsimp only
-      (repeat' split) <;> rfl
-  | outOfAmmoResult => exact Or.inl rfl
-  | rpsFinished => exact Or.inl rfl
-  | runCancel => exact Or.inl rfl
-  | instanceExit id reason =>
-    left; show (stepExit s id reason).waiter = s.waiter
-    unfold stepExit; split <;> rfl
+theorem complete_notAhead (c : Cfg) (all : List Int) (s : St) (r : Res) (p : Pending) (hi : Inv c all s)
+    (hn : NotAhead all s) (hph : s.phase = .starting)
+    (hr : r.ok = true → ∃ next, s.toks.head? = some next ∧ next ≤ p.env.ret) : NotAhead all (complete s r p) := by
+  have hcons : s.consumed = s.started := hi.consStarting hph
+  unfold complete
+  by_cases hok : r.ok = true
+  · obtain ⟨next, hnext, hle⟩ := hr hok
+    have hall : all[s.started]? = some next := by
+      rw [hi.toks, hcons] at hnext
+      simpa [List.head?_drop] using hnext
+    simp only [hok, Bool.not_true, Bool.false_eq_true, if_false]
+    by_cases hd : drew r.path = true <;> simp only [hd, if_true, Bool.false_eq_true, if_false]
+    all_goals
+      by_cases h0 : (s.started == 0) = true
+      · have hs0 : s.started = 0 := by simpa using h0
+        by_cases hco : p.createOk = true
+        · simp only [h0, if_true, hco]
+          intro cr hcr
+          simp only [List.mem_append, List.mem_singleton] at hcr
+          rcases hcr with hcr | hcr
+          · exact hn cr hcr
+          · subst hcr
+            exact ⟨next, by simpa [hs0] using hall, by simp; omega⟩
+        · simp only [h0, if_true, hco, Bool.false_eq_true, if_false]
+          exact hn
+      · simp only [h0, Bool.false_eq_true, if_false]
+        intro cr hcr
+        simp only [List.mem_append, List.mem_singleton] at hcr
+        rcases hcr with hcr | hcr
+        · exact hn cr hcr
+        · subst hcr
+          exact ⟨next, hall, by simp; omega⟩
+  · have hok' : r.ok = false := by simpa using hok
+    simp only [hok', Bool.not_false, if_true]
+    by_cases hd : drew r.path = true <;> simp only [hd, if_true, Bool.false_eq_true, if_false] <;> exact hn
 
-theorem EventsClockOK.tail {v : Variant} {s : St} {ev : Event} {rest : List Event}
-    (h : EventsClockOK s.waiter (ev :: rest)) : EventsClockOK (step v s ev).waiter rest := by
-  obtain ⟨h1, h2, h3⟩ := h
+theorem step_clock (c : Cfg) (s : St) (ev : Event) (rest : List Event) (h : ClockInv s (ev :: rest)) :
+    ClockInv (step c s ev) rest := by
   cases ev with
   | wait env createOk delay =>
-    simp only [waitEnvs, List.pairwise_cons] at h1 h2 h3
-    refine ⟨fun e he => h1 e (by simp [he]), fun e he => ?_, h3.2⟩
-    rcases step_waiter v s (.wait env createOk delay) with hw | ⟨env', _, _, heq, hw⟩
-    · rw [hw]; exact h2 e (by simp [he])
-    · injection heq with heq
-      subst heq
-      rw [hw]
-      rcases waitV_lastNow v s.waiter env with hl | hl
-      · rw [hl]; exact h2 e (by simp [he])
-      · rw [hl]; exact h3.1 e he
-  | outOfAmmoResult => exact ⟨h1, h2, h3⟩
-  | rpsFinished => exact ⟨h1, h2, h3⟩
-  | runCancel => exact ⟨h1, h2, h3⟩
-  | instanceExit id reason =>
-    have : (step v s (.instanceExit id reason)).waiter = s.waiter := by
-      show (stepExit s id reason).waiter = s.waiter
-      unfold stepExit; split <;> rfl
-    rw [this]; exact ⟨h1, h2, h3⟩
-
-theorem step_notAhead (v : Variant) (all : List Int) (s : St) (ev : Event) (hi : Inv all s) (hn : NotAhead all s)
-    (hclk : ∀ env ok d, ev = .wait env ok d → EnvOK env ∧ s.waiter.lastNow ≤ env.now) :
-    NotAhead all (step v s ev) := by
-  cases ev with
-  | wait env createOk delay =>
-    obtain ⟨hok, hinv⟩ := hclk env createOk delay rfl
-    show NotAhead all (stepWait v s env createOk delay)
+    have hok : ∀ e ∈ waitEnvs rest, EnvOK e := fun e he => h.ok e (by simp [waitEnvs, he])
+    have hlast : ∀ e ∈ waitEnvs rest, s.waiter.lastNow ≤ e.now := fun e he => h.last e (by simp [waitEnvs, he])
+    have hpw := h.pw
+    simp only [waitEnvs, List.pairwise_cons] at hpw
+    show ClockInv (stepWait c s env createOk delay) rest
     unfold stepWait
-    by_cases hg : (s.phase != .starting || !envMatches s env) = true
-    · simpa [hg] using hn
-    · simp only [hg]
+    by_cases hg : (s.phase != .starting || s.pending.isSome || !envMatches s env) = true
+    · rw [if_pos hg]
+      exact ⟨hok, hlast, hpw.2, fun p hp => by
+        obtain ⟨a, b, d⟩ := h.pend p hp
+        exact ⟨a, b, fun e he => d e (by simp [waitEnvs, he])⟩⟩
+    · rw [if_neg hg]
+      by_cases ht : ((waitV c.v s.waiter env).path == .timer) = true
+      · simp only [ht, if_true]
+        refine ⟨hok, hlast, hpw.2, ?_⟩
+        intro p hp
+        simp only [Option.some.injEq] at hp
+        subst hp
+        exact ⟨h.ok env (by simp [waitEnvs]), h.last env (by simp [waitEnvs]), hpw.1⟩
+      · simp only [ht, Bool.false_eq_true, if_false]
+        obtain ⟨hw, hpn⟩ := complete_waiter s (waitV c.v s.waiter env) ⟨env, createOk, delay⟩
+        refine ⟨hok, ?_, hpw.2, ?_⟩
+        · intro e he
+          rw [hw]
+          rcases waitV_lastNow c.v s.waiter env with hl | hl
+          · rw [hl]; exact hlast e he
+          · rw [hl]; exact hpw.1 e he
+        · intro p hp; rw [hpn] at hp; cases hp
+  | timerFire =>
+    show ClockInv (stepFire c s) rest
+    unfold stepFire
+    cases hp : s.pending with
+    | none => exact ⟨h.ok, h.last, h.pw, fun p hp' => by rw [hp] at hp'; cases hp'⟩
+    | some p =>
+      obtain ⟨hw, hpn⟩ := complete_waiter s (waitV c.v s.waiter p.env) p
+      obtain ⟨_, hb, hd⟩ := h.pend p hp
+      refine ⟨h.ok, ?_, h.pw, ?_⟩
+      · intro e he
+        show (complete s (waitV c.v s.waiter p.env) p).waiter.lastNow ≤ e.now
+        rw [hw]
+        rcases waitV_lastNow c.v s.waiter p.env with hl | hl
+        · rw [hl]; exact h.last e he
+        · rw [hl]; exact hd e he
+      · intro q hq
+        have : (complete s (waitV c.v s.waiter p.env) p).pending = some q := hq
+        rw [hpn] at this; cases this
+  | wakeCancelled =>
+    show ClockInv (stepWake c s) rest
+    unfold stepWake
+    cases hp : s.pending with
+    | none => exact ⟨h.ok, h.last, h.pw, fun p hp' => by rw [hp] at hp'; cases hp'⟩
+    | some p =>
+      by_cases hcx : s.startCtxDone = true
+      · simp only [hcx, Bool.not_true, Bool.false_eq_true, if_false]
+        obtain ⟨hw, hpn⟩ := complete_waiter s (waitV c.v s.waiter { p.env with timerWins := false }) p
+        obtain ⟨_, hb, hd⟩ := h.pend p hp
+        refine ⟨h.ok, ?_, h.pw, ?_⟩
+        · intro e he
+          rw [hw]
+          rcases waitV_lastNow c.v s.waiter { p.env with timerWins := false } with hl | hl
+          · rw [hl]; exact h.last e he
+          · rw [hl]; exact hd e he
+        · intro q hq; rw [hpn] at hq; cases hq
+      · have : (!s.startCtxDone) = true := by simpa using hcx
+        simp only [this, if_true]
+        exact ⟨h.ok, h.last, h.pw, fun q hq => h.pend q hq⟩
+  | outOfAmmoResult =>
+    show ClockInv (if !s.ammoOut then s else _) rest
+    split
+    · exact ⟨h.ok, h.last, h.pw, h.pend⟩
+    · exact ⟨h.ok, h.last, h.pw, h.pend⟩
+  | rpsFinished =>
+    show ClockInv (if c.perInstance || !anyInstance s then s else _) rest
+    split
+    · exact ⟨h.ok, h.last, h.pw, h.pend⟩
+    · exact ⟨h.ok, h.last, h.pw, h.pend⟩
+  | runCancel => exact ⟨h.ok, h.last, h.pw, h.pend⟩
+  | instanceExit id reason =>
+    show ClockInv (stepExit c s id reason) rest
+    unfold stepExit
+    split
+    · exact ⟨h.ok, h.last, h.pw, h.pend⟩
+    · exact ⟨h.ok, h.last, h.pw, h.pend⟩
+
+theorem step_notAhead (c : Cfg) (all : List Int) (s : St) (ev : Event) (rest : List Event) (hi : Inv c all s)
+    (hn : NotAhead all s) (hclk : ClockInv s (ev :: rest)) : NotAhead all (step c s ev) := by
+  cases ev with
+  | wait env createOk delay =>
+    show NotAhead all (stepWait c s env createOk delay)
+    unfold stepWait
+    by_cases hg : (s.phase != .starting || s.pending.isSome || !envMatches s env) = true
+    · rw [if_pos hg]; exact hn
+    · rw [if_neg hg]
       have hph : s.phase = .starting := by
         cases hp : s.phase <;> simp_all
       have hm : envMatches s env = true := by
         cases hm : envMatches s env <;> simp_all
-      have hcons : s.consumed = s.started := by
-        rcases hi.consumed with hc | ⟨hd, _⟩
-        · exact hc
-        · rw [hph] at hd; cases hd
-      simp only [envMatches, Bool.and_eq_true, beq_iff_eq] at hm
-      obtain ⟨⟨_, htok⟩, _⟩ := hm
-      by_cases hk : (waitV v s.waiter env).ok = true
-      · simp only [hk]
-        obtain ⟨next, hnext, hle, _⟩ := waitV_ok v s.waiter env hok hinv hk
-        have hall : all[s.started]? = some next := by
-          have : s.toks.head? = some next := by rw [← htok, hnext]
-          rw [hi.toks, hcons] at this
-          simpa [List.head?_drop] using this
-        by_cases h0 : (s.started == 0) = true
-        · by_cases hco : createOk = true
-          · simp only [Bool.not_true, Bool.false_eq_true, if_false, h0, if_true, hco]
-            have hs0 : s.started = 0 := by simpa using h0
-            intro c hc
-            simp only [List.mem_append, List.mem_singleton] at hc
-            rcases hc with hc | hc
-            · exact hn c hc
-            · subst hc
-              refine ⟨next, by simpa [hs0] using hall, ?_⟩
-              simp; omega
-          · simp only [Bool.not_true, Bool.false_eq_true, if_false, h0, if_true, hco]
-            exact hn
-        · simp only [Bool.not_true, Bool.false_eq_true, if_false, h0]
-          intro c hc
-          simp only [List.mem_append, List.mem_singleton] at hc
-          rcases hc with hc | hc
-          · exact hn c hc
-          · subst hc
-            refine ⟨next, hall, ?_⟩
-            simp; omega
-      · have hk' : (waitV v s.waiter env).ok = false := by simpa using hk
-        simp only [hk', Bool.not_false, if_true]
+      by_cases ht : ((waitV c.v s.waiter env).path == .timer) = true
+      · simp only [ht, if_true]; exact hn
+      · simp only [ht, Bool.false_eq_true, if_false]
+        refine complete_notAhead c all s _ _ hi hn hph ?_
+        intro hok
+        obtain ⟨next, hnext, hle, _⟩ := waitV_ok c.v s.waiter env (hclk.ok env (by simp [waitEnvs]))
+          (hclk.last env (by simp [waitEnvs])) hok
+        simp only [envMatches, Bool.and_eq_true, beq_iff_eq] at hm
+        exact ⟨next, by rw [← hm.1.2, hnext], hle⟩
+  | timerFire =>
+    show NotAhead all (stepFire c s)
+    unfold stepFire
+    cases hp : s.pending with
+    | none => exact hn
+    | some p =>
+      obtain ⟨hph, htok, _⟩ := hi.pend p hp
+      obtain ⟨hek, hlast, _⟩ := hclk.pend p hp
+      refine complete_notAhead c all s _ p hi hn hph ?_
+      intro hok
+      obtain ⟨next, hnext, hle, _⟩ := waitV_ok c.v s.waiter p.env hek hlast hok
+      exact ⟨next, by rw [← htok, hnext], hle⟩
+  | wakeCancelled =>
+    show NotAhead all (stepWake c s)
+    unfold stepWake
+    cases hp : s.pending with
+    | none => exact hn
+    | some p =>
+      by_cases hcx : s.startCtxDone = true
+      · simp only [hcx, Bool.not_true, Bool.false_eq_true, if_false]
+        obtain ⟨hph, _, hpath⟩ := hi.pend p hp
+        refine complete_notAhead c all s _ p hi hn hph ?_
+        intro hok
+        rw [(waitV_timer_cancel _ _ _ hpath).2] at hok
+        cases hok
+      · have : (!s.startCtxDone) = true := by simpa using hcx
+        simp only [this, if_true]
         exact hn
-  | outOfAmmoResult => exact hn
-  | rpsFinished => exact hn
+  | outOfAmmoResult =>
+    show NotAhead all (if !s.ammoOut then s else _)
+    split <;> exact hn
+  | rpsFinished =>
+    show NotAhead all (if c.perInstance || !anyInstance s then s else _)
+    split <;> exact hn
   | runCancel => exact hn
   | instanceExit id reason =>
-    show NotAhead all (stepExit s id reason)
+    show NotAhead all (stepExit c s id reason)
     unfold stepExit; split <;> exact hn
 
-theorem run_notAhead (v : Variant) (all : List Int) (s : St) (evs : List Event) (hi : Inv all s) (hn : NotAhead all s)
-    (hclk : EventsClockOK s.waiter evs) : NotAhead all (run v s evs) := by
+theorem run_notAhead (c : Cfg) (all : List Int) (s : St) (evs : List Event) (hi : Inv c all s) (hn : NotAhead all s)
+    (hclk : ClockInv s evs) : NotAhead all (run c s evs) := by
   induction evs generalizing s with
   | nil => exact hn
   | cons ev rest ih =>
-    refine ih _ (step_inv v all s ev hi) (step_notAhead v all s ev hi hn ?_) hclk.tail
-    intro env ok d heq
-    subst heq
-    exact ⟨hclk.1 env (by simp [waitEnvs]), hclk.2.1 env (by simp [waitEnvs])⟩
+    exact ih _ (step_inv c all s ev hi) (step_notAhead c all s ev rest hi hn hclk) (step_clock c s ev rest hclk)
+
+theorem ClockInv.init (all : List Int) (evs : List Event) (h : EventsClockOK (St.init all).waiter evs) :
+    ClockInv (St.init all) evs :=
+  ⟨h.1, h.2.1, h.2.2, fun p hp => by simp [St.init] at hp⟩
+
+/-- counting form of `NotAhead`: at any instant `T` at most as many instances have been created as the profile has
+released tokens (ids are distinct token indices, each not later than its instance) -/
+theorem count_le_of_notAhead (all : List Int) (created : List Created)
+    (hids : created.map (·.id) = List.range created.length)
+    (hn : ∀ c ∈ created, ∃ t, all[c.id]? = some t ∧ t ≤ c.instant) (T : Int) :
+    (created.filter (fun c => decide (c.instant ≤ T))).length ≤ (all.filter (fun t => decide (t ≤ T))).length := by
+  -- created ids are 0..n-1 in order, so created[j].id = j and all[j] ≤ created[j].instant
+  have hlen : created.length ≤ all.length := by
+    by_cases h0 : created.length = 0
+    · omega
+    · have hlast : created.length - 1 < created.length := by omega
+      have hmem : created[created.length - 1] ∈ created := List.getElem_mem hlast
+      have hid : created[created.length - 1].id = created.length - 1 := by
+        have := congrArg (fun l => l[created.length - 1]?) hids
+        simp only [List.getElem?_map, List.getElem?_range hlast] at this
+        rw [List.getElem?_eq_getElem hlast] at this
+        simpa using this
+      obtain ⟨t, ht, _⟩ := hn _ hmem
+      rw [hid] at ht
+      have := (List.getElem?_eq_some_iff.mp ht).1
+      omega
+  -- induction over a common prefix length
+  have key : ∀ n, n ≤ created.length →
+      ((created.take n).filter (fun c => decide (c.instant ≤ T))).length ≤
+        ((all.take n).filter (fun t => decide (t ≤ T))).length := by
+    intro n
+    induction n with
+    | zero => intro _; simp
+    | succ n ih =>
+      intro hn1
+      have hn' : n < created.length := by omega
+      have hna : n < all.length := by omega
+      rw [List.take_succ_eq_append_getElem hn', List.take_succ_eq_append_getElem hna]
+      simp only [List.filter_append, List.length_append]
+      have hid : created[n].id = n := by
+        have := congrArg (fun l => l[n]?) hids
+        simp only [List.getElem?_map, List.getElem?_range hn'] at this
+        rw [List.getElem?_eq_getElem hn'] at this
+        simpa using this
+      obtain ⟨t, ht, hle⟩ := hn _ (List.getElem_mem hn')
+      rw [hid, List.getElem?_eq_getElem hna] at ht
+      have hte : all[n] = t := by simpa using ht
+      have := ih (by omega)
+      by_cases hc : created[n].instant ≤ T
+      · have : all[n] ≤ T := by omega
+        simp [hc, this]
+        omega
+      · by_cases ha : all[n] ≤ T <;> simp [hc, ha] <;> omega
+  have h1 := key created.length (Nat.le_refl _)
+  rw [List.take_length] at h1
+  refine Nat.le_trans h1 ?_
+  have hsub : List.Sublist (all.take created.length) all := List.take_sublist _ _
+  exact (hsub.filter _).length_le
+
+/-! ### the exits of `instance.Run` -/
+
+/-- `Run` returns the error of its loop body only as "out of ammo", after a pass in which the provider had no ammo -/
+theorem instRun_body (its : List RunIter) (e : BodyErr) (h : instRun its = .body e) :
+    e = .outOfAmmo ∧ ∃ it ∈ its, it.ammoOk = false := by
+  induction its with
+  | nil => simp [instRun] at h
+  | cons it rest ih =>
+    simp only [instRun] at h
+    by_cases hf : instFinished it.ctxDone it.left = true
+    · simp [hf] at h
+    · simp only [hf, Bool.not_false, if_true] at h
+      by_cases ha : it.ammoOk = true
+      · have hb : instBody it.ammoOk it.waitOk = .nil := by simp [instBody, ha]
+        simp only [hb, bne_self_eq_false, Bool.false_eq_true, if_false] at h
+        obtain ⟨h1, it', hm, h2⟩ := ih h
+        exact ⟨h1, it', List.mem_cons_of_mem _ hm, h2⟩
+      · have ha' : it.ammoOk = false := by simpa using ha
+        have hb : instBody it.ammoOk it.waitOk = .outOfAmmo := by simp [instBody, ha']
+        rw [hb] at h
+        simp only [show (BodyErr.outOfAmmo != BodyErr.nil) = true by decide, if_true] at h
+        injection h with h
+        exact ⟨h.symm, it, List.mem_cons_self, ha'⟩
+
+/-- `Run` returns `ctx.Err()` only after a loop head at which its context was done or its schedule had no tokens left -/
+theorem instRun_ctxErr (its : List RunIter) (h : instRun its = .ctxErr) :
+    ∃ it ∈ its, it.ctxDone = true ∨ it.left = 0 := by
+  induction its with
+  | nil => simp [instRun] at h
+  | cons it rest ih =>
+    simp only [instRun] at h
+    by_cases hf : instFinished it.ctxDone it.left = true
+    · refine ⟨it, List.mem_cons_self, ?_⟩
+      unfold instFinished at hf
+      by_cases hc : it.ctxDone = true
+      · exact Or.inl hc
+      · right; simpa [hc] using hf
+    · simp only [hf, Bool.not_false, if_true] at h
+      by_cases hb : (instBody it.ammoOk it.waitOk != .nil) = true
+      · simp [hb] at h
+      · simp only [hb, Bool.false_eq_true, if_false] at h
+        obtain ⟨it', hm, h2⟩ := ih h
+        exact ⟨it', List.mem_cons_of_mem _ hm, h2⟩
+
+/-- as long as the context is not done, tokens are left and the provider has ammo, `Run` keeps looping -/
+theorem instRun_running (its : List RunIter)
+    (h : ∀ it ∈ its, it.ctxDone = false ∧ it.left ≠ 0 ∧ it.ammoOk = true) : instRun its = .running := by
+  induction its with
+  | nil => rfl
+  | cons it rest ih =>
+    obtain ⟨hc, hl, ha⟩ := h it List.mem_cons_self
+    have hf : instFinished it.ctxDone it.left = false := by simp [instFinished, hc, hl]
+    have hb : instBody it.ammoOk it.waitOk = .nil := by simp [instBody, ha]
+    simp only [instRun, hf, Bool.not_false, if_true, hb, bne_self_eq_false, Bool.false_eq_true, if_false]
+    exact ih (fun it' hm => h it' (List.mem_cons_of_mem _ hm))
 
 end Pandora.Proofs.C12
